@@ -54,14 +54,18 @@ class Report:
         self.t0 = time.time()
         self.notes = {}
 
-    def fail(self, key, witness):
+    def fail(self, key, witness, site=None):
         e = self.failures.setdefault(key, {"count": 0, "witness": witness})
         e["count"] += 1
+        if site is not None:
+            e.setdefault("sites", {})[site] = witness
 
     def merge_failures(self, d):
         for key, e in d.items():
             cur = self.failures.setdefault(key, {"count": 0, "witness": e["witness"]})
             cur["count"] += e["count"]
+            if e.get("sites"):
+                cur.setdefault("sites", {}).update(e["sites"])
 
     def inconc(self, reason):
         self.inconclusive.append(reason)
@@ -75,7 +79,15 @@ class Report:
             full = "%s|%s" % (self.pid, key)
             if full in known:
                 lines.append("KNOWN-FINDING: property=%s %s  [%s; %d cases this run]" % (self.pid, known[full]["what_fails"], full, e["count"]))
-                continue
+                listed = known[full].get("sites")
+                if listed is None:
+                    continue
+                # the finding is identified by its call sites: a site it does not list is a new violation
+                unlisted = sorted(set(e.get("sites", {})) - set(listed))
+                if not unlisted:
+                    continue
+                e = {"count": len(unlisted), "witness": {"unlisted_sites": unlisted[:50], "first": e["sites"][unlisted[0]]}}
+                key = key + "|unlisted-sites"
             viol += 1
             if viol <= 20:
                 path = write_replay(self.pid, key, e)
@@ -119,7 +131,10 @@ def write_replay(pid, key, entry):
     h = hashlib.sha256(key.encode()).hexdigest()[:12]
     path = os.path.join(d, h + ".json")
     with open(path, "w", encoding="utf-8") as f:
-        json.dump({"property": pid, "seed": seed(), "mechanism": key, "count": entry["count"], "witness": entry["witness"]}, f, indent=1, default=str)
+        doc = {"property": pid, "seed": seed(), "mechanism": key, "count": entry["count"], "witness": entry["witness"]}
+        if entry.get("sites"):
+            doc["sites"] = sorted(entry["sites"])
+        json.dump(doc, f, indent=1, default=str)
     return path
 
 
